@@ -113,6 +113,11 @@ def conc_scenarios(tier, rng):
     scs.append({"init": [I(1, 1, 3)], "progs": [[Match(1), Match(1)], [Match(2)]]})
     scs.append({"init": [R(1, 1, 3, 0, 1, True)], "progs": [[Match(1), Match(1)], [Match(1)]]})
     scs.append({"init": [I(1, 1, 2), R(2, 1, 2, 1, 1, True)], "progs": [[Match(2)], [Match(2)]]})
+    # orders whose own price field differs from the level's (add_order does not check it): transactions and
+    # statistics must still be booked at the level's price, whoever matches them
+    offp = [dict(S(1, 2), px=PRICE - 3), dict(I(2, 1, 2), px=PRICE + 2)]
+    scs.append({"init": offp, "progs": [[Match(2)], [Match(2)]]})
+    scs.append({"init": offp, "progs": [[Match(3), Cancel(2)], [Add(dict(S(3, 1), px=PRICE + 7)), Match(1)]]})
     if tier == "thorough":
         small = [Match(2), Match(4), Cancel(1), Amend(1, 1), Amend(2, 1), Add(S(4, 2))]
         for a in range(len(small)):
@@ -171,7 +176,7 @@ def seq_history(rng, nops, nids=6, monotone_ts=True, zero_ok=True, reads=True, v
         x = rng.below(100)
         i = rng.range(1, nids)
         if x < 30:
-            ts = ts + 1 if monotone_ts else rng.range(1, 4)
+            ts = ts + 1 if monotone_ts else rng.range(0, 4)      # 0: "no arrival time" for the statistics
             o = rand_order(rng, i, ts, zero_ok)
             if vary_px:
                 # the order's own price field is not checked by add_order: it may differ from the level's
